@@ -13,12 +13,17 @@ use std::panic::{catch_unwind, AssertUnwindSafe};
 pub struct Dims {
     pub n: usize,
     pub m: usize,
+    pub k: usize,
 }
 
 pub trait Engine {
     type S: Clone;
     type O: Clone;
     const NAME: &'static str;
+    /// name under which known findings are listed (differs per instantiation of a generic engine)
+    fn kf_name() -> String {
+        Self::NAME.to_string()
+    }
     /// does the type implement CvRDT
     const HAS_MERGE: bool = true;
     const HAS_RESET: bool = false;
@@ -257,6 +262,41 @@ impl Report {
             }));
         }
     }
+    pub fn absorb(&mut self, o: Report) {
+        for (k, v) in o.evals {
+            *self.evals.entry(k).or_insert(0) += v;
+        }
+        for (k, v) in o.rec_counts {
+            *self.rec_counts.entry(k).or_insert(0) += v;
+        }
+        for (k, v) in o.nontrivial {
+            *self.nontrivial.entry(k).or_insert(0) += v;
+        }
+        for (k, v) in o.known {
+            *self.known.entry(k).or_insert(0) += v;
+        }
+        self.drift += o.drift;
+        self.lines += o.lines;
+        for r in o.records {
+            let class = format!("{}|{}|{}", r["verdict"].as_str().unwrap_or(""),
+                r["props"].as_array().map(|a| a.iter().filter_map(|x| x.as_str()).collect::<Vec<_>>().join(",")).unwrap_or_default(),
+                obs_class(r["obs"].as_str().unwrap_or("")));
+            let have = self.records.iter().filter(|x| {
+                format!("{}|{}|{}", x["verdict"].as_str().unwrap_or(""),
+                    x["props"].as_array().map(|a| a.iter().filter_map(|y| y.as_str()).collect::<Vec<_>>().join(",")).unwrap_or_default(),
+                    obs_class(x["obs"].as_str().unwrap_or(""))) == class
+            }).count() as u64;
+            if have < CAP_PER_CLASS {
+                self.records.push(r);
+            }
+        }
+        for s in o.samples {
+            if self.samples.len() < 6 {
+                self.samples.push(s);
+            }
+        }
+        self.errors.extend(o.errors);
+    }
     pub fn to_json(&self) -> Value {
         json!({
             "lines": self.lines,
@@ -439,7 +479,7 @@ pub fn cmp_json(a: &Value, b: &Value) -> std::cmp::Ordering {
 pub struct Finding {
     pub id: String,
     pub property: String,
-    pub engine: String,
+    pub engine: Vec<String>,
     /// observable class prefix this finding explains
     pub obs: Vec<String>,
     pub status: String,
@@ -455,6 +495,17 @@ pub struct Known {
     pub findings: Vec<Finding>,
 }
 
+/// pattern with at most one '*': "prefix*suffix"; without '*' it is a prefix match
+pub fn glob_match(pat: &str, s: &str) -> bool {
+    match pat.find('*') {
+        Some(i) => {
+            let (pre, suf) = (&pat[..i], &pat[i + 1..]);
+            s.len() >= pre.len() + suf.len() && s.starts_with(pre) && s.ends_with(suf)
+        }
+        None => s.starts_with(pat),
+    }
+}
+
 impl Known {
     pub fn load(path: &str) -> Known {
         let mut findings = vec![];
@@ -464,7 +515,11 @@ impl Known {
                     findings.push(Finding {
                         id: f["id"].as_str().unwrap_or("").to_string(),
                         property: f["property"].as_str().unwrap_or("").to_string(),
-                        engine: f["engine"].as_str().unwrap_or("").to_string(),
+                        engine: match &f["engine"] {
+                            Value::String(x) => vec![x.clone()],
+                            Value::Array(a) => a.iter().filter_map(|x| x.as_str().map(|s| s.to_string())).collect(),
+                            _ => vec![],
+                        },
                         obs: f["obs"]
                             .as_array()
                             .map(|a| a.iter().filter_map(|x| x.as_str().map(|s| s.to_string())).collect())
@@ -487,8 +542,8 @@ impl Known {
         let oc = obs_class(obs);
         self.findings.iter().find(|f| {
             f.status == "open"
-                && f.engine == engine
-                && f.obs.iter().any(|o| oc.starts_with(o.as_str()))
+                && f.engine.iter().any(|e| e == engine)
+                && f.obs.iter().any(|o| glob_match(o, &oc))
                 && (f.sig.is_empty() || sigs.iter().any(|x| *x == f.sig))
                 && eq_model.unwrap_or(true)
                 && match f.when.as_str() {
@@ -503,12 +558,16 @@ impl Known {
 // replay of a TLC dump
 // ---------------------------------------------------------------------------
 
+#[derive(Clone)]
 pub struct ReplayOpts {
     pub engine_cfg: String,
     pub obligations: bool,
     pub laws: bool,
     pub persist: bool,
     pub max_samples: usize,
+    /// explicit model dimensions (members, keys); 0 = derive from the first line
+    pub m: usize,
+    pub k: usize,
 }
 
 pub fn parse_dump_line(line: &str) -> Option<Value> {
@@ -552,12 +611,56 @@ fn props_for_ctx<E: Engine>(f: &Feats) -> Vec<&'static str> {
     p
 }
 
+/// one equal-knowledge class: the reads and state first seen for it
+#[derive(Clone)]
+pub struct ConvEntry {
+    pub reads: Value,
+    pub proj: Value,
+    pub h: Value,
+    /// reached by causal op delivery only (no merge, no overtaking): C01 applies
+    pub causal: bool,
+    /// the real state equalled layer B on that line
+    pub no_drift: bool,
+    pub pending: bool,
+    pub sigs: Vec<String>,
+}
+
+/// C01 (equal reads, causal op delivery) and C20 (equal state, any schedule) across behaviours
+pub fn conv_compare<E: Engine>(rep: &mut Report, known: &Known, a: &ConvEntry, b: &ConvEntry) {
+    let mut sigs = a.sigs.clone();
+    sigs.extend(b.sigs.iter().cloned());
+    let eqm = Some(a.no_drift && b.no_drift);
+    let pend = a.pending || b.pending;
+    if a.causal && b.causal {
+        rep.eval(&["C01"]);
+        if a.reads != b.reads {
+            let dd = first_diff(&b.reads, &a.reads, "").unwrap();
+            let obs = format!("conv.{}", dd.0);
+            let verdict = match known.listed(&E::kf_name(), &obs, eqm, pend, &sigs) {
+                Some(fd) => format!("known:{}", fd.id),
+                None => "violation".to_string(),
+            };
+            rep.add(&verdict, &["C01"], E::NAME, &obs, dd.1, dd.2, Value::Null, &b.h, json!({"other_path": a.h}));
+        }
+    }
+    rep.eval(&["C20"]);
+    if a.proj != b.proj {
+        let dd = first_diff(&b.proj, &a.proj, "").unwrap();
+        let obs = format!("convstate.{}", dd.0);
+        let verdict = match known.listed(&E::kf_name(), &obs, eqm, pend, &sigs) {
+            Some(fd) => format!("known:{}", fd.id),
+            None => "violation".to_string(),
+        };
+        rep.add(&verdict, &["C20"], E::NAME, &obs, dd.1, dd.2, Value::Null, &b.h, json!({"other_path": a.h}));
+    }
+}
+
 pub struct Replayer<'a, E: Engine> {
     pub rep: Report,
     pub known: &'a Known,
     pub opts: ReplayOpts,
     /// C01 across behaviours: canonical knowledge -> (reads, path)
-    pub conv: HashMap<String, (Value, Value, bool)>,
+    pub conv: HashMap<String, ConvEntry>,
     pub dims: Dims,
     pub cur_sigs: Vec<String>,
     _e: std::marker::PhantomData<E>,
@@ -592,7 +695,7 @@ impl<'a, E: Engine> Replayer<'a, E> {
             return;
         }
         let eq_model = model.as_ref().map(|m| *m == real);
-        let verdict = match self.known.listed(E::NAME, obs, eq_model, pending, &self.cur_sigs) {
+        let verdict = match self.known.listed(&E::kf_name(), obs, eq_model, pending, &self.cur_sigs) {
             Some(f) => format!("known:{}", f.id),
             None => "violation".to_string(),
         };
@@ -619,6 +722,12 @@ impl<'a, E: Engine> Replayer<'a, E> {
         let n = ln["vop"].as_array().map(|a| a.len()).unwrap_or(0).max(who);
         if self.dims.n == 0 {
             self.dims = dims_of::<E>(ln, n);
+            if self.opts.m > 0 {
+                self.dims.m = self.opts.m;
+            }
+            if self.opts.k > 0 {
+                self.dims.k = self.opts.k;
+            }
         }
         let d = self.dims.clone();
         let actor_of = |r: usize| r as u8;
@@ -636,7 +745,7 @@ impl<'a, E: Engine> Replayer<'a, E> {
                     self.rep.eval(&[E::semantic_prop()]);
                     let pend = sys.feats.pending;
                     let sg = E::sigs(&sys);
-                    let verdict = match self.known.listed(E::NAME, "panic", None, pend, &sg) {
+                    let verdict = match self.known.listed(&E::kf_name(), "panic", None, pend, &sg) {
                         Some(f) => format!("known:{}", f.id),
                         None => "violation".to_string(),
                     };
@@ -681,7 +790,7 @@ impl<'a, E: Engine> Replayer<'a, E> {
             for (path, r, e) in diffs.iter() {
                 let props = if E::is_ctx_path(path) { px.clone() } else { pc.clone() };
                 let eqm = model_reads.as_ref().map(|_| !mdiffs.contains(path));
-                let verdict = match self.known.listed(E::NAME, path, eqm, pend_now, &self.cur_sigs) {
+                let verdict = match self.known.listed(&E::kf_name(), path, eqm, pend_now, &self.cur_sigs) {
                     Some(fd) => format!("known:{}", fd.id),
                     None => "violation".to_string(),
                 };
@@ -701,7 +810,7 @@ impl<'a, E: Engine> Replayer<'a, E> {
                 if real_proj != canon {
                     let dd = first_diff(&real_proj, &canon, "").unwrap();
                     let eqm = real_proj == b;
-                    let verdict = match self.known.listed(E::NAME, &format!("canon.{}", dd.0), Some(eqm), pend_now, &self.cur_sigs) {
+                    let verdict = match self.known.listed(&E::kf_name(), &format!("canon.{}", dd.0), Some(eqm), pend_now, &self.cur_sigs) {
                         Some(fd) => format!("known:{}", fd.id),
                         None => "violation".to_string(),
                     };
@@ -717,29 +826,34 @@ impl<'a, E: Engine> Replayer<'a, E> {
             self.judge(&["C07"], "gen.op", real_op, mo, None, h, pend_now, Value::Null);
         }
 
-        // 4. C01 across behaviours: equal sets of applied ops => equal reads
-        if !f.merge && !f.noncausal {
+        // 4. C01 / C20 across behaviours: equal sets of learned ops => equal reads (causal op
+        //    delivery) and equal state (any schedule)
+        {
             let mut keyv: Vec<String> = sys.know[who - 1]
                 .iter()
                 .map(|i| serde_json::to_string(&E::op_proj(&sys.ops[*i - 1].op, &d)).unwrap())
                 .collect();
             keyv.sort();
             let key = keyv.join(";");
-            self.rep.eval(&["C01"]);
-            match self.conv.get(&key) {
-                Some((reads0, h0, _)) => {
-                    if *reads0 != real_reads {
-                        let dd = first_diff(&real_reads, reads0, "").unwrap();
-                        let verdict = match self.known.listed(E::NAME, &format!("conv.{}", dd.0), Some(real_proj == b), pend_now, &self.cur_sigs) {
-                            Some(fd) => format!("known:{}", fd.id),
-                            None => "violation".to_string(),
-                        };
-                        let h0c = h0.clone();
-                        self.rep.add(&verdict, &["C01"], E::NAME, &format!("conv.{}", dd.0), dd.1, dd.2, Value::Null, h, json!({"other_path": h0c}));
+            let entry = ConvEntry {
+                reads: real_reads.clone(),
+                proj: real_proj.clone(),
+                h: h.clone(),
+                causal: !f.merge && !f.noncausal,
+                no_drift: real_proj == b,
+                pending: pend_now,
+                sigs: self.cur_sigs.clone(),
+            };
+            match self.conv.get(&key).cloned() {
+                Some(e0) => {
+                    conv_compare::<E>(&mut self.rep, self.known, &e0, &entry);
+                    // prefer to remember a causal representative, so that C01 gets compared
+                    if entry.causal && !e0.causal {
+                        self.conv.insert(key, entry);
                     }
                 }
                 None => {
-                    self.conv.insert(key, (real_reads.clone(), h.clone(), true));
+                    self.conv.insert(key, entry);
                 }
             }
         }
@@ -814,7 +928,7 @@ impl<'a, E: Engine> Replayer<'a, E> {
                 }
             },
             Err(e) => {
-                let verdict = match self.known.listed(E::NAME, "serde.ser", None, pending, &self.cur_sigs) {
+                let verdict = match self.known.listed(&E::kf_name(), "serde.ser", None, pending, &self.cur_sigs) {
                     Some(fd) => format!("known:{}", fd.id),
                     None => "violation".to_string(),
                 };
@@ -846,6 +960,9 @@ impl<'a, E: Engine> Replayer<'a, E> {
         let pend_now = E::has_pending(s);
         let base_reads = E::reads(s, &d);
         let base_proj = E::proj(s, &d);
+        let ob = &ln["ob"];
+        // model verdict <<reads equal, state equal>> at ob.<name>[i][j]..., if the model printed it
+        let mv = |v: &Value, idx: usize| -> Option<Value> { v.as_array().and_then(|a| a.get(idx)).cloned() };
 
         // C09: re-applying any known op changes nothing (reads, ==)
         for i in sys.know[who - 1].iter() {
@@ -857,10 +974,11 @@ impl<'a, E: Engine> Replayer<'a, E> {
             });
             match res {
                 Ok(c) => {
+                    let m = mv(&ob["dup"], *i - 1);
                     let r2 = E::reads(&c, &d);
-                    self.judge(&["C09"], "dup.reads", json!(r2 == base_reads), json!(true), None, h, pend_now, json!({"op": i}));
+                    self.judge(&["C09"], "dup.reads", json!(r2 == base_reads), json!(true), m.as_ref().and_then(|x| mv(x, 0)), h, pend_now, json!({"op": i}));
                     let p2 = E::proj(&c, &d);
-                    self.judge(&["C09", "C20"], "dup.state", json!(p2 == base_proj), json!(true), None, h, pend_now, json!({"op": i}));
+                    self.judge(&["C09", "C20"], "dup.state", json!(p2 == base_proj), json!(true), m.as_ref().and_then(|x| mv(x, 1)), h, pend_now, json!({"op": i}));
                 }
                 Err(e) => self.judge(&["C09"], "dup.panic", json!(e), json!(true), None, h, pend_now, json!({"op": i})),
             }
@@ -875,7 +993,8 @@ impl<'a, E: Engine> Replayer<'a, E> {
                     let st = &sys.st[q];
                     let op = &sys.ops[i].op;
                     let real = catch(|| E::validate_op(st, op)).unwrap_or_else(|e| format!("PANIC {}", e));
-                    self.judge(&["C16"], "vop", json!(real), expv.clone(), None, h, pend_now, json!({"replica": q + 1, "op": i + 1}));
+                    let m = mv(&ln["vopB"], q).and_then(|x| mv(&x, i));
+                    self.judge(&["C16"], "vop", json!(real), expv.clone(), m, h, pend_now, json!({"replica": q + 1, "op": i + 1}));
                 }
             }
         }
@@ -912,10 +1031,11 @@ impl<'a, E: Engine> Replayer<'a, E> {
                     c
                 }) {
                     Ok(c) => {
+                        let m = if name.starts_with('r') { mv(&ob["stale"], name[1..].parse::<usize>().unwrap() - 1) } else { None };
                         let r2 = E::reads(&c, &d);
-                        self.judge(&["C09"], "stale.reads", json!(r2 == base_reads), json!(true), None, h, pend_now, json!({"other": name}));
+                        self.judge(&["C09"], "stale.reads", json!(r2 == base_reads), json!(true), m.as_ref().and_then(|x| mv(x, 0)), h, pend_now, json!({"other": name}));
                         let p2 = E::proj(&c, &d);
-                        self.judge(&["C09", "C20"], "stale.state", json!(p2 == base_proj), json!(true), None, h, pend_now, json!({"other": name}));
+                        self.judge(&["C09", "C20"], "stale.state", json!(p2 == base_proj), json!(true), m.as_ref().and_then(|x| mv(x, 1)), h, pend_now, json!({"other": name}));
                     }
                     Err(e) => self.judge(&["C09"], "stale.panic", json!(e), json!(true), None, h, pend_now, json!({"other": name})),
                 }
@@ -933,9 +1053,14 @@ impl<'a, E: Engine> Replayer<'a, E> {
                 let r = catch(|| E::eq(s, other) && E::eq(other, s));
                 let realv = match r {
                     Ok(b) => json!(b),
-                    Err(e) => json!(format!("PANIC {}", e)),
+                    Err(_) => json!("PANIC"),
                 };
-                self.judge(&["C20"], "eq.equal_knowledge", realv, json!(true), None, h, pend_now, json!({"other": q + 1}));
+                // when the model says some register holds a pair twice the type's == may return
+                // anything (its sanity assert fires depending on iteration order): any outcome is "what B does"
+                let anyout = mv(&ob["dupair"], q) == Some(json!(true)) || mv(&ob["dupair"], who - 1) == Some(json!(true));
+                let m = if anyout { Some(realv.clone()) } else { mv(&ob["eqk"], q) };
+                let obs = if realv == json!("PANIC") { "eq.panic" } else { "eq.equal_knowledge" };
+                self.judge(&["C20"], obs, realv, json!(true), m, h, pend_now, json!({"other": q + 1}));
             }
         }
 
@@ -955,9 +1080,11 @@ impl<'a, E: Engine> Replayer<'a, E> {
             };
             for (ia, a) in pool.iter().enumerate() {
                 // idempotence
+                let nrep = d.n;
                 if let Ok(aa) = mg(a, a) {
-                    self.judge(&["C02"], "law.idem.reads", json!(E::reads(&aa, &d) == E::reads(a, &d)), json!(true), None, h, pend_now, json!({"a": ia + 1}));
-                    self.judge(&["C02", "C20"], "law.idem.state", json!(E::proj(&aa, &d) == E::proj(a, &d)), json!(true), None, h, pend_now, json!({"a": ia + 1}));
+                    let m = if ia < nrep { mv(&ob["idem"], ia) } else { None };
+                    self.judge(&["C02"], "law.idem.reads", json!(E::reads(&aa, &d) == E::reads(a, &d)), json!(true), m.as_ref().and_then(|x| mv(x, 0)), h, pend_now, json!({"a": ia + 1}));
+                    self.judge(&["C02", "C20"], "law.idem.state", json!(E::proj(&aa, &d) == E::proj(a, &d)), json!(true), m.as_ref().and_then(|x| mv(x, 1)), h, pend_now, json!({"a": ia + 1}));
                 }
                 for (ib, b) in pool.iter().enumerate() {
                     if ib == ia {
@@ -967,8 +1094,9 @@ impl<'a, E: Engine> Replayer<'a, E> {
                     let ba = mg(b, a);
                     if let (Ok(ab), Ok(ba)) = (&ab, &ba) {
                         if ia < ib {
-                            self.judge(&["C02"], "law.comm.reads", json!(E::reads(ab, &d) == E::reads(ba, &d)), json!(true), None, h, pend_now, json!({"a": ia + 1, "b": ib + 1}));
-                            self.judge(&["C02", "C20"], "law.comm.state", json!(E::proj(ab, &d) == E::proj(ba, &d)), json!(true), None, h, pend_now, json!({"a": ia + 1, "b": ib + 1}));
+                            let m = if ia < nrep && ib < nrep { mv(&ob["comm"], ia).and_then(|x| mv(&x, ib)) } else { None };
+                            self.judge(&["C02"], "law.comm.reads", json!(E::reads(ab, &d) == E::reads(ba, &d)), json!(true), m.as_ref().and_then(|x| mv(x, 0)), h, pend_now, json!({"a": ia + 1, "b": ib + 1}));
+                            self.judge(&["C02", "C20"], "law.comm.state", json!(E::proj(ab, &d) == E::proj(ba, &d)), json!(true), m.as_ref().and_then(|x| mv(x, 1)), h, pend_now, json!({"a": ia + 1, "b": ib + 1}));
                         }
                     } else {
                         self.judge(&["C02"], "law.panic", json!("PANIC"), json!(true), None, h, pend_now, Value::Null);
@@ -981,8 +1109,9 @@ impl<'a, E: Engine> Replayer<'a, E> {
                             let l = mg(ab, c);
                             let r = mg(b, c).and_then(|bc| mg(a, &bc));
                             if let (Ok(l), Ok(r)) = (l, r) {
-                                self.judge(&["C02"], "law.assoc.reads", json!(E::reads(&l, &d) == E::reads(&r, &d)), json!(true), None, h, pend_now, json!({"a": ia + 1, "b": ib + 1, "c": ic + 1}));
-                                self.judge(&["C02", "C20"], "law.assoc.state", json!(E::proj(&l, &d) == E::proj(&r, &d)), json!(true), None, h, pend_now, json!({"a": ia + 1, "b": ib + 1, "c": ic + 1}));
+                                let m = if ia < nrep && ib < nrep && ic < nrep { mv(&ob["assoc"], ia).and_then(|x| mv(&x, ib)).and_then(|x| mv(&x, ic)) } else { None };
+                                self.judge(&["C02"], "law.assoc.reads", json!(E::reads(&l, &d) == E::reads(&r, &d)), json!(true), m.as_ref().and_then(|x| mv(x, 0)), h, pend_now, json!({"a": ia + 1, "b": ib + 1, "c": ic + 1}));
+                                self.judge(&["C02", "C20"], "law.assoc.state", json!(E::proj(&l, &d) == E::proj(&r, &d)), json!(true), m.as_ref().and_then(|x| mv(x, 1)), h, pend_now, json!({"a": ia + 1, "b": ib + 1, "c": ic + 1}));
                             }
                         }
                     }
@@ -1025,7 +1154,7 @@ impl<'a, E: Engine> Replayer<'a, E> {
 
 fn dims_of<E: Engine>(ln: &Value, n: usize) -> Dims {
     let m = ln["B"]["entries"].as_array().map(|a| a.len()).unwrap_or(0);
-    Dims { n, m }
+    Dims { n, m, k: m }
 }
 
 pub fn jmap(pairs: Vec<(&str, Value)>) -> Value {
